@@ -14,8 +14,12 @@ Tag (`TranslateTag.validate_message_block`, `TranslateNode._format_message`):
 
     text  = "".join(content.replace("%", "%%") | "%(" + var + ")s")       per node of the block
     text  = re_whitespace.sub(" ", text.strip())   if trim_messages        re_whitespace = \s*\n\s*
-    _vars = {k: str(resolve(k)) for k in re_vars.findall(text)}            re_vars = (?<!%)(?:%%)*%\((\w+)\)s
+    _vars = {k: str(resolve(k)) for k in re_vars.findall(text)}            re_vars = (?<!%)(?:%%)*%\((NAME+)\)s
     return text % _vars
+
+where NAME is `\w` before and `[^()%]` after `fix: translate tag resolves variables whose name is not a \w+
+word`; the harness reads the pattern from the code under test and tells the driver which class to use
+(`asciiWord` or `tagNameChar`).
 
 `w` is the `\w` character class and `ws` the `\s` class; the theorems hold for every choice of them that
 keeps `%`, `(`, `)` out of `\w` (and, for trimming, keeps `%`, `(`, `)`, `s`, `\w` out of `\s`).
@@ -211,11 +215,15 @@ def nChoice (left plural : Str) (count : CountVal) : Except PyExc Str :=
   | .ok n => .ok (nullNgettext left plural n)
   | .error e => .error e
 
-/-- `TranslateNode.resolve_count`: `to_int(block_scope.get("count", 1))`, `ValueError` → 1 -/
+/-- `TranslateNode.resolve_count`: `to_int(block_scope.get("count", 1))`; `ValueError`, `TypeError` and
+`OverflowError` → 1 (`fix: translate tag count falls back to one for any non-integer value`) -/
 def tagCount (count? : Option CountVal) : Except PyExc Int :=
   match count? with
   | none => .ok 1
-  | some v => intArgDefault1 v
+  | some v =>
+    match pyInt v with
+    | .ok i => .ok i
+    | .error _ => .ok 1
 
 /-- `TranslateNode.gettext` with null translations (fixed: `count is not None`; `resolve_count` never
 returns `None`) -/
@@ -246,5 +254,8 @@ def translateTag (w ws : Char → Bool) (val : Str → Str) (trim : Bool) (singu
 
 /-- the `\w` used by the driver: ASCII letters, digits, underscore -/
 def asciiWord (c : Char) : Bool := c.isAlphanum || c == '_'
+
+/-- `[^()%]`: the name class of the translate tag's placeholder pattern after the fix -/
+def tagNameChar (c : Char) : Bool := c != '(' && c != ')' && c != '%'
 
 end LiquidVerif.Translate
